@@ -37,7 +37,7 @@ fn index_set_array(array: &mut Vec<Object>, mut index: isize, value: Object) -> 
         in_bounds(index as int, old(array)@.len() as int) ==> (r is Ok && final(array)@ == old(array)@.update(norm(index as int, old(array)@.len() as int), value)),
         !in_bounds(index as int, old(array)@.len() as int) ==> (r matches Err(Error::IndexError(_)) && final(array)@ == old(array)@),
 {
-//@BODY file=vm.rs fn=index_set_array sig="fn index_set_array(array: &mut Vec<Object>, mut index: isize, value: Object) -> Result<(), Error>" rules="R3[array.len() as isize=>cast_usize_isize(array.len())];R3[index as usize=>cast_isize_usize(index)]"
+//@BODY file=vm.rs fn=index_set_array sig="fn index_set_array(array: &mut Vec<Object>, mut index: isize, value: Object) -> Result<(), Error>" rules="R3[index as usize=>cast_isize_usize(index)]"
 }
 
 fn index_get_array(obj: Object, mut index: isize) -> (r: Result<Object, Error>)
@@ -47,7 +47,7 @@ fn index_get_array(obj: Object, mut index: isize) -> (r: Result<Object, Error>)
         in_bounds(index as int, spec_vec(obj).len() as int) ==> (r is Ok && r->Ok_0 == spec_vec(obj)[norm(index as int, spec_vec(obj).len() as int)]),
         !in_bounds(index as int, spec_vec(obj).len() as int) ==> r matches Err(Error::IndexError(_)),
 {
-//@BODY file=vm.rs fn=index_get_array sig="fn index_get_array(obj: Object, mut index: isize) -> Result<Object, Error>" rules="R3[array.len() as isize=>cast_usize_isize(array.len())];R3[index as usize=>cast_isize_usize(index)]"
+//@BODY file=vm.rs fn=index_get_array sig="fn index_get_array(obj: Object, mut index: isize) -> Result<Object, Error>" rules="R3[index as usize=>cast_isize_usize(index)]"
 }
 
 } // verus!
